@@ -257,6 +257,25 @@ func syinv(c *syncer) bool {
 //@   modifies c.state
 //@   ensures c.state == syncStateIdle
 
+//@ func (c *syncer) reset()
+//@   props C07 C18
+//@   modifies chanlog[struct{}]()
+//@   acquires syncer.mu
+//@   requires syinv(c)
+//@   modifies c.state
+//@   ensures c.state == syncStateIdle
+
+//@ func (c *syncer) getState() (r syncState)
+//@   props C18
+//@   acquires syncer.mu
+//@   requires c != nil
+//@   ensures r == c.state
+
+//@ func (t *IntervalAwareForceTicker) LastTimedTick() (r time.Time)
+//@   props C18
+//@   acquires IntervalAwareForceTicker.lastTimedTickMtx
+//@   requires t != nil
+
 //@ func (c *syncer) initResendUpTo(top uint8)
 //@   props C01 C07 C18
 //@   modifies chanlog[struct{}]()
@@ -473,6 +492,36 @@ func boinv(b *TimeoutBooster) bool { return b != nil && past(b.lastBoost) }
 //@   acquires TimeoutManager.mu
 //@   requires m != nil
 //@   ensures r == m.sendTimeout
+
+// The timeout setters may be called from any goroutine at any time (C18): they
+// touch the two deadlines only under the manager's mutex.
+//@ func (m *TimeoutManager) SetSendTimeout(timeout time.Duration)
+//@   props C18 C20
+//@   acquires TimeoutManager.mu
+//@   requires m != nil
+//@   modifies m.sendTimeout
+//@   ensures m.sendTimeout == timeout
+
+//@ func (m *TimeoutManager) SetRecvTimeout(timeout time.Duration)
+//@   props C18 C20
+//@   acquires TimeoutManager.mu
+//@   requires m != nil
+//@   modifies m.recvTimeout
+//@   ensures m.recvTimeout == timeout
+
+//@ func (g *GoBackNConn) SetSendTimeout(timeout time.Duration)
+//@   props C18
+//@   acquires TimeoutManager.mu
+//@   requires g != nil && g.timeoutManager != nil
+//@   modifies g.timeoutManager.sendTimeout
+//@   ensures g.timeoutManager.sendTimeout == timeout
+
+//@ func (g *GoBackNConn) SetRecvTimeout(timeout time.Duration)
+//@   props C18
+//@   acquires TimeoutManager.mu
+//@   requires g != nil && g.timeoutManager != nil
+//@   modifies g.timeoutManager.recvTimeout
+//@   ensures g.timeoutManager.recvTimeout == timeout
 
 //@ func (m *TimeoutManager) GetRecvTimeout() (r time.Duration)
 //@   props C20 C18
